@@ -141,6 +141,14 @@ func (x *Exec) staticCall(st *State, fr *Frame, v *ssa.Call, callee *ssa.Functio
 	}
 	if !inModule(callee) || len(callee.Blocks) == 0 {
 		x.stdlibCall(st, fr, v, callee, args, site)
+		// a contract may bind the result of a library call, too
+		if x.topC != nil && fr.fn == x.top {
+			if bn, ok := x.topC.CallBinds[x.siteOrd(fr, v)]; ok {
+				if res, ok := fr.regs[v]; ok && res != nil {
+					fr.binds[bn] = res
+				}
+			}
+		}
 		return nil
 	}
 	// a method whose interface family contract exists is called through it
